@@ -231,6 +231,13 @@ func TestC20(t *testing.T) {
 			return &C03AllPerms{DT: rapid.SampledFrom([]string{"int8", "int16", "float32", "float64", "complex128", "string"}).Draw(rt, "dt"), Shape: shape, Op: "T+Transpose", L: Layout{Root: "rm"}}
 		})
 	}
+	c20cell(t, "C03.allperms", "allperms/sides-to-9", nCases(10, 150), func(rt *rapid.T) Case {
+		shape := []int{rapid.IntRange(2, 9).Draw(rt, "m"), rapid.IntRange(2, 9).Draw(rt, "n")}
+		if rapid.IntRange(0, 3).Draw(rt, "r3") == 0 {
+			shape = append(shape, rapid.IntRange(2, 5).Draw(rt, "k"))
+		}
+		return &C03AllPerms{DT: rapid.SampledFrom([]string{"int8", "int16", "float32", "float64", "complex128", "string", "rec24"}).Draw(rt, "dt"), Shape: shape, Op: rapid.SampledFrom([]string{"pkgTranspose", "T+Transpose"}).Draw(rt, "op"), L: Layout{Root: "rm"}}
+	})
 	c20cell(t, "C03.allperms", "allperms/word-boundaries", nCases(6, 80), func(rt *rapid.T) Case {
 		return genWordBoundaryTranspose(rt, rapid.SampledFrom([]string{"pkgTranspose", "T+Transpose"}).Draw(rt, "op"))
 	})
